@@ -137,6 +137,32 @@ Theorem C03_complete_model_trace_accepted : forall cp quota n acts, let s := run
 Proof. exact (fun cp quota n acts => complete_trace_accepted cp quota n (run cp s0 acts) (ex_intro _ acts eq_refl)). Qed.
 Print Assumptions C03_complete_model_trace_accepted.
 
+Definition ex_m_thr : msg :=
+  {| m_type := 1; m_text := [1]; m_file := None; m_line := [1]; m_func := None; m_cat := None; m_time := [1]; m_steady := [1];
+     m_tid := [1]; m_fmt := None; m_attrs := [] |}.
+(* 7. all handler work happens on the logger thread, the logging call itself never runs a sink — whether the application
+   object existed when moveToOwnThread() was called ([app] = true) or was created afterwards ([app] = false): the translated
+   moveToOwnThread() moves the worker unconditionally *)
+Theorem C03_worker_moved_unconditionally : src_worker_move = WMAlways.
+Proof. exact (eq_refl WMAlways). Qed.
+Print Assumptions C03_worker_moved_unconditionally.
+Theorem C03_sink_steps_on_logger_thread : forall cp s a s' app,
+  step cp s a = Some s' -> slog s' <> slog s -> exec_thread src_worker_move app a = TOwn.
+Proof. exact (fun cp s a s' app => sink_steps_on_logger_thread cp s a s' app). Qed.
+Print Assumptions C03_sink_steps_on_logger_thread.
+Theorem C03_producer_steps_on_caller_thread : forall app a, is_producer_action a = true -> exec_thread src_worker_move app a = TCaller.
+Proof. exact (producer_steps_on_caller_thread src_worker_move). Qed.
+Print Assumptions C03_producer_steps_on_caller_thread.
+Theorem C03_conditional_move_refuted :
+  exists cp s s', step cp s ADone = Some s' /\ slog s' <> slog s /\ exec_thread WMIfApp false ADone = TCaller.
+Proof. exact conditional_move_refuted. Qed.
+Print Assumptions C03_conditional_move_refuted.
+Example C03_threads_nonvacuous :
+  map (exec_thread src_worker_move false) [ACall 0 (ex_m_thr); APost 0; ATake; ADone] = [TCaller; TCaller; TOwn; TOwn] /\
+  map (exec_thread src_worker_move true) [ATake; ADone] = [TOwn; TOwn] /\
+  map (exec_thread WMIfApp false) [ATake; ADone] = [TCaller; TCaller] /\ map (exec_thread WMIfApp true) [ATake; ADone] = [TOwn; TOwn].
+Proof. vm_compute. repeat split; reflexivity. Qed.
+
 (* non-vacuity: two producers, the worker lagging behind; null file and function on one message *)
 Definition ex_m (k : nat) (f : option bytes) : msg :=
   {| m_type := k; m_text := [k]; m_file := f; m_line := [k]; m_func := f; m_cat := Some [99]; m_time := [k]; m_steady := [k];
